@@ -206,3 +206,8 @@ Definition kernprof_case_ok (unit u : Q) (z : bool) (E : env) (fs : files) (st :
   : bool * bool :=
   (report_agrees (kernprof_view_report unit u z E st) ob,
    spec_ok unit (Some u) fs (mkOpts z false false true) st ob).
+
+Definition print_stats_case_ok (unit : Q) (output_unit : option Q) (E : env) (fs : files) (o : options)
+           (st : stats) (ob : obs) : bool * bool :=
+  (report_agrees (print_stats_report (mkLineStats st unit) output_unit o E) ob,
+   spec_ok unit output_unit fs o st ob).
